@@ -818,6 +818,12 @@ class SecureHomeKitConnection(HomeKitConnection):
                     self._pair_verify_failed_hosts.add(_normalize_host(self.connected_host))
                 self._drop_transport()
                 raise
+            except BaseException:
+                # The secure session could not be negotiated. The connection
+                # is of no further use, and if we kept it the next attempt
+                # would replace self.transport and leave this one open forever.
+                self._drop_transport()
+                raise
 
         # Secure session has been negotiated - switch protocol so all future messages are encrypted
         self.protocol = SecureHomeKitProtocol(
